@@ -7,12 +7,14 @@
      weight comparison (specified and as called) and the discordance scale;
    - the weight scale: WSM, RatioMOORA, ReferencePointMOORA, TOPSIS closeness, WPM, FMF;
    - labels never enter a kernel (by typing: the kernels take no labels).
-   The remaining combinations (TOPSIS distances and the reference-point maximum under criteria
-   permutation, pipelines) are covered by the correspondence only. *)
+   - TOPSIS: distances under any order of the criteria (every metric), distances, similarity and ranking
+     under any order of the alternatives; the reference-point score under any order of the criteria.
+   Pipelines (scalers / inverters / weighters in front of a method) are covered by the two-presentation
+   correspondence only. *)
 From Coq Require Import ZArith QArith List Bool Arith Permutation.
 From Coq Require Import Reals.
 From SKC Require Import Base.QBool Base.QList Base.QRank Model.Agg Model.Electre Theory.Agg Theory.RankFacts Theory.Invariance
-  Theory.RealClosing Theory.MultiMoora Theory.RankPerm Theory.RankPerm2 Theory.ElectreInv.
+  Theory.RealClosing Theory.MultiMoora Theory.RankPerm Theory.RankPerm2 Theory.ElectreInv Theory.CritPerm.
 Import ListNotations.
 
 (* ---- order of the alternatives -------------------------------------------------------------------- *)
@@ -192,6 +194,28 @@ Theorem C05_electre2_ranking_follows_alternatives : forall n sg (ts tw ts' tw' :
   end.
 Proof. intros n sg ts tw ts' tw' P. exact (electre2_rank_follows_alternatives n sg P ts tw ts' tw'). Qed.
 Print Assumptions C05_electre2_ranking_follows_alternatives.
+
+(* ---- TOPSIS and the reference point, remaining orders ------------------------------------------------- *)
+Theorem C05_topsis_distance_criteria_order : forall mt a b a' b',
+  Permutation (combine a b) (combine a' b') -> dist mt a b == dist mt a' b'.
+Proof. exact dist_criteria_order_irrelevant. Qed.
+Print Assumptions C05_topsis_distance_criteria_order.
+
+Theorem C05_refpoint_score_criteria_order : forall w rp r w' rp' r',
+  Permutation (wtrips w r rp) (wtrips w' r' rp') ->
+  refpoint_score_row w rp r == refpoint_score_row w' rp' r'.
+Proof. exact refpoint_row_criteria_order_irrelevant. Qed.
+Print Assumptions C05_refpoint_score_criteria_order.
+
+Theorem C05_topsis_result_follows_alternatives : forall mt objs w sigma rows,
+  Permutation sigma (seq 0 (length rows)) ->
+  match topsis_rational mt objs w rows, topsis_rational mt objs w (reindex [] sigma rows) with
+  | Ok (rk, s), Ok (rk', s') => rk' = reindex 0%nat sigma rk /\ Forall2 Qeq s' (reindex 0 sigma s)
+  | Err _, Err _ => True
+  | _, _ => False
+  end.
+Proof. exact topsis_result_follows_alternatives. Qed.
+Print Assumptions C05_topsis_result_follows_alternatives.
 
 Example C05_example :
   dot [1; 2; 3] [4; 5; 6] == dot [3; 1; 2] [6; 4; 5] /\
